@@ -149,7 +149,7 @@ def model(ctx, th):
     ctx.notes.append("non-vacuity: the model with a dropped tail, unreversed taps or a lost decimation phase violates the invariants")
 
 
-KLABELS = {"fir_value", "fir_count", "iir_recurrence", "lowpass_odd", "lowpass_symmetric", "lowpass_dc_gain", "hilbert_taps",
+KLABELS = {"fir_value", "fir_count", "iir_recurrence", "iir_clamped_recurrence", "lowpass_odd", "lowpass_symmetric", "lowpass_dc_gain", "hilbert_taps",
            "hilbert_taps_antisymmetric", "hilbert_taps_even_zero", "hilbert_count", "hilbert_real_path", "hilbert_imag_path", "panic", "rejected"}
 
 
